@@ -59,9 +59,14 @@ func dataFor(op Op) []byte {
 	return b
 }
 
+// A key names one (task, partition) entry: keys 2k and 2k+1 are the two
+// partitions of one task, so that histories cover tasks with several
+// partitions written, read and discarded in any order.
 func taskName(key int) exec.TaskName {
-	return exec.TaskName{InvIndex: 1, Op: fmt.Sprintf("op%d", key/2), Shard: key % 2, NumShard: 2}
+	return exec.TaskName{InvIndex: 1, Op: fmt.Sprintf("op%d", key/4), Shard: (key / 2) % 2, NumShard: 2}
 }
+
+func partOf(key int) int { return key % 2 }
 
 type result struct {
 	Err     string `json:"err,omitempty"`
@@ -88,7 +93,7 @@ func doOp(ctx context.Context, st exec.Store, op Op) (res result) {
 	tn := taskName(op.Key)
 	switch op.Kind {
 	case "W":
-		w, err := exec.VerifCreate(ctx, st, tn, 0)
+		w, err := exec.VerifCreate(ctx, st, tn, partOf(op.Key))
 		if err != nil {
 			res.Err = err.Error()
 			return
@@ -110,7 +115,7 @@ func doOp(ctx context.Context, st exec.Store, op Op) (res result) {
 			res.Err = err.Error()
 		}
 	case "R":
-		rc, err := st.Open(ctx, tn, 0, op.Offset)
+		rc, err := st.Open(ctx, tn, partOf(op.Key), op.Offset)
 		if err != nil {
 			res.Err = err.Error()
 			res.NotExist = strings.Contains(err.Error(), "exist") || strings.Contains(err.Error(), "no such file")
@@ -124,7 +129,7 @@ func doOp(ctx context.Context, st exec.Store, op Op) (res result) {
 		}
 		res.Data = b
 	case "S":
-		size, count, err := exec.VerifStat(ctx, st, tn, 0)
+		size, count, err := exec.VerifStat(ctx, st, tn, partOf(op.Key))
 		if err != nil {
 			res.Err = err.Error()
 			res.NotExist = strings.Contains(err.Error(), "exist") || strings.Contains(err.Error(), "no such file")
@@ -132,7 +137,7 @@ func doOp(ctx context.Context, st exec.Store, op Op) (res result) {
 		}
 		res.Size, res.Count = size, count
 	case "D":
-		if err := st.Discard(ctx, tn, 0); err != nil {
+		if err := st.Discard(ctx, tn, partOf(op.Key)); err != nil {
 			res.Err = err.Error()
 			res.NotExist = strings.Contains(err.Error(), "exist") || strings.Contains(err.Error(), "no such file")
 		}
